@@ -198,8 +198,8 @@ def plan(tier):
 
 
 SIZES = {
-    'quick': dict(mixed=2600, gen=700, enum_len=3, enum2_len=2, stress_limit=4096, big=40),
-    'thorough': dict(mixed=60000, gen=15000, enum_len=4, enum2_len=3, stress_limit=4096, big=600),
+    'quick': dict(mixed=2600, payload=1500, gen=700, enum_len=3, enum2_len=2, stress_limit=4096, big=40),
+    'thorough': dict(mixed=60000, payload=30000, gen=15000, enum_len=4, enum2_len=3, stress_limit=4096, big=600),
 }
 
 
@@ -250,6 +250,11 @@ def run(ctx):
                     break
                 doc = gen.generate(rng, profile='full')
                 run_input(ctx, doc.text, 'generated', tmpdir=tmpdir)
+        # payload-seeded documents (hostile strings inside destinations, titles, info strings ...)
+        for k in range(sz['payload'] // ctx.nshards):
+            if ctx.out_of_time():
+                break
+            run_input(ctx, workloads.payload_doc(rng), 'payload', tmpdir=tmpdir)
         # S2 + S4 random
         for k in range(sz['mixed'] // ctx.nshards):
             if ctx.out_of_time():
